@@ -375,6 +375,14 @@ func checkC07(ix *index, add addFn) {
 					}
 				}
 				if rel < 0 {
+					// its own PUBREC was delivered while the call was waiting and the
+					// connection was up: the exchange must go on with PUBREL
+					rec := got[0]
+					waiting := o.ret < 0 || o.ret > rec
+					up := connEnded < 0 || connEnded > rec
+					if waiting && up && ix.complete {
+						add("late", fmt.Sprintf("op %d (publish q2 id %d): its PUBREC was delivered at t=%dns but no PUBREL followed", k, id, ix.tr[rec].T), map[string]string{"stage": "pubrec"})
+					}
 					break
 				}
 				at = rel
@@ -792,9 +800,38 @@ func checkC11Reconn(ix *index, add addFn) {
 	}
 }
 
+// checkRefusedCode: a Connect that fails because the broker refused it returns
+// an error in which errors.Is finds ErrConnectionFailed and errors.As finds the
+// ConnectionError with the broker's return code, through whatever wrapping the
+// client that was called adds.
+func checkRefusedCode(ix *index, add addFn) {
+	for _, i := range ix.rx {
+		if i >= ix.end() {
+			break
+		}
+		r := &ix.tr[i]
+		if r.P == nil || r.P.Type != TConnAck || r.P.Code == 0 {
+			continue
+		}
+		for k, op := range ix.sc.Ops {
+			if op.Kind != "connect" && op.Kind != "rconnect" {
+				continue
+			}
+			o := ix.ops[k]
+			if o.inv < 0 || o.inv > i || o.ret < i || o.ret >= ix.end() || ix.tr[o.ret].T != r.T || o.err == "" || o.ctxErr {
+				continue
+			}
+			if !hasCls(o.cls, "connfailed") || !hasCls(o.cls, fmt.Sprintf("code%d", r.P.Code)) {
+				add("sentinel", fmt.Sprintf("op %d (%s): CONNACK refused with code %d; the returned error %q does not give ErrConnectionFailed / ConnectionError{Code: %d} to errors.Is / errors.As", k, op.Kind, r.P.Code, o.err, r.P.Code), map[string]string{"want": "connrefused"})
+			}
+		}
+	}
+}
+
 // C19: errors keep their cause (fault-caused half).
 func checkC19(ix *index, add addFn) {
 	sc := ix.sc
+	checkRefusedCode(ix, add)
 	if sc.Cfg.Client != "base" {
 		checkC19Retry(ix, add)
 		return
